@@ -14,7 +14,7 @@
    cancellation is drawn aborted in the frames that follow" marks it aborted in the
    render closure, which Container.step's BAR_RENDER rule follows. *)
 From Coq Require Import Permutation.
-From MPB Require Import Base BaseProofs BarState BarStateProofs Container ContainerProofs ContainerLife ContainerFlush.
+From MPB Require Import Base BaseProofs BarState BarStateProofs Container ContainerProofs ContainerLife ContainerFlush ContainerCover.
 
 Theorem C03_no_output_after_wait : forall s s1 evs s2,
   step s CT_EXIT = Some s1 -> run s1 evs = Some s2 -> outframes s2 = outframes s.
@@ -69,6 +69,23 @@ Proof.
   apply andb_prop in G as [G1 G]. apply andb_prop in G1 as [D _]. rewrite A, E in G. cbn in G. rewrite orb_false_r in G. auto.
 Qed.
 Print Assumptions C03_shutdown_frame_before_return.
+
+(* the shutdown loop of an auto-refresh container: after every frame it asks the heap manager whether a bar joined (with a sync
+   request) or the number of bars changed during that frame; it renders again on "yes" and ends only on "no" — and then the bars
+   left in the container are exactly the bars of the last frame's iteration: bars set to be removed are absent from the last
+   frame, no bar that stays is missing from it *)
+Theorem C03_no_end_while_the_bar_set_changed : forall p a d evs s hl s',
+  run (init_cst p a d) evs = Some s -> step s (HM_END hl) = Some s' ->
+  state_answer s <> Some true /\
+  (state_answer s = Some false -> forall x, cnt x (heap s') = cnt x (iter_heap s')).
+Proof. exact container_ends_on_the_last_frames_set. Qed.
+Print Assumptions C03_no_end_while_the_bar_set_changed.
+
+Theorem C03_answer_no_means_the_last_frame_is_final : forall p a d evs s hl cs cl s',
+  run (init_cst p a d) evs = Some s -> step s (HM_STATE hl cs cl) = Some s' -> state_answer s' = Some false ->
+  forall x, cnt x (heap s') = cnt x (iter_heap s').
+Proof. exact last_frame_shows_the_final_set. Qed.
+Print Assumptions C03_answer_no_means_the_last_frame_is_final.
 
 (* non-vacuity: a bar completes, is shown completed twice, the container is done and exits *)
 Example C03_nonvacuous :
